@@ -65,7 +65,25 @@ def plan(tier, seed):
         groups.append([{"kind": "struct", "calc": itf, "cell": cn, "what": w} for cn in CELLS for w in ("unitcell", "supercell", "displaced")])
     groups.append([{"kind": "pairing", "scenario": s, "cell": cn} for cn in ("NaCl-grouped", "NaClNaO-tri", "interleaved-tri")
                    for s in ("consistent", "swapped-first-two", "swapped-later", "duplicate", "wrong-cell")])
-    meta = {"alphabet": {"calculators": [str(c) for c in CALCS], "structure_interfaces": STRUCT_IF, "cells": CELLS, "structure_kinds": 3, "pairing_scenarios": 5},
+    import itertools
+
+    from vtk import forcefiles as FF
+
+    ff = []
+    for calc in FF.WRITERS:
+        for n in (1, 2, 4, 7, 12):
+            for nb in ((1, 3) if calc in FF.HISTORY else (1,)):
+                for mag in (0.05, 40.0):
+                    ff.append({"kind": "forcefile", "calc": calc, "n": n, "blocks": nb, "mag": mag, "order": None, "short": False})
+        if calc in FF.ANY_ORDER:
+            for perm in itertools.permutations(range(4)):
+                ff.append({"kind": "forcefile", "calc": calc, "n": 4, "blocks": 1, "mag": 0.05, "order": list(perm), "short": False})
+            for n in (7, 12):
+                for perm in (list(range(n))[::-1], list(range(1, n)) + [0], [n - 1] + list(range(n - 1))):
+                    ff.append({"kind": "forcefile", "calc": calc, "n": n, "blocks": 1, "mag": 0.05, "order": perm, "short": False})
+    groups += [ff[k:k + 40] for k in range(0, len(ff), 40)]
+    meta = {"alphabet": {"calculators": [str(c) for c in CALCS], "structure_interfaces": STRUCT_IF, "force_file_interfaces": sorted(FF.WRITERS),
+                         "force_file_axes": "atoms {1,2,4,7,12} x relaxation history {1,3 blocks} x magnitude x (line order: all 24 permutations of 4 ids and 6 larger ones where lines carry the atom id)", "cells": CELLS, "structure_kinds": 3, "pairing_scenarios": 5},
             "bound": "complete product", "exhaustive": True,
             "not_covered": ["cp2k structure files (cp2k-input-tools is not installed)", "interfaces whose written file cannot be read back by the same interface without calculator-specific context are reported as skipped with the reason"]}
     return groups, meta
@@ -491,10 +509,74 @@ def run_pairing(case, seed):
     return dict(ok=True, nontrivial=True, transitions=1, outcome="ok:pairing:" + sc)
 
 
+def run_forcefile(case, seed):
+    """A calculator output written by the harness in the calculator's own layout is parsed to the forces it carries, atom
+    by atom; a truncated output is refused."""
+    import importlib
+
+    from phonopy.interface.calculator import get_calc_dataset
+    from vtk import forcefiles as FF
+
+    calc, n = case["calc"], case["n"]
+    g = np.random.default_rng(1000 * n + seed)
+    syms = [("Na", "Cl", "Na", "O")[i % 4] for i in range(n)]
+    if calc in FF.GROUPED:
+        syms = sorted(syms, key=("Na", "Cl", "O").index)
+    blocks = []
+    for _ in range(case["blocks"]):
+        F = g.normal(size=(n, 3)) * case["mag"]
+        F -= F.mean(axis=0)
+        blocks.append(F)
+    order = case["order"] or list(range(n))
+    nontriv = bool(case["order"] and case["order"] != sorted(case["order"])) or case["blocks"] > 1 or case["short"] or n > 1
+    tagc = "%s/n=%d/blocks=%d%s%s" % (calc, n, case["blocks"], "/order=%s" % case["order"] if case["order"] else "", "/truncated" if case["short"] else "")
+    mod = importlib.import_module("phonopy.interface." + calc)
+    with tempfile.TemporaryDirectory(prefix="c17f_") as td:
+        path = FF.WRITERS[calc](os.path.join(td, "out-001"), blocks, syms, order)
+        nexp = n + 1 if case["short"] else n
+        buf = io.StringIO()
+        res = {}
+        for route, fn in (("parse_set_of_forces", lambda: mod.parse_set_of_forces(nexp, [path], verbose=False)),
+                          ("get_calc_dataset", lambda: get_calc_dataset(calc, nexp, [path], verbose=False)["forces"])):
+            try:
+                with contextlib.redirect_stdout(buf), contextlib.redirect_stderr(buf):
+                    res[route] = fn()
+            except (Exception, SystemExit) as e:
+                res[route] = e
+    want = FF.EXPECT[calc] * blocks[-1]
+    want = want - want.mean(axis=0)
+    top = np.abs(want).max() + 1e-300
+    tol = 1.01 * FF.RESOLUTION.get(calc, 0.0) + 1.01 * FF.REL_RESOLUTION.get(calc, 0.0) * top + 1e-13 * top
+    if abs(FF.EXPECT[calc]) != 1.0:
+        tol += 2e-6 * top  # unit constants of different CODATA vintages
+    for route, r in res.items():
+        refused = isinstance(r, BaseException) or r is None or len(r) == 0
+        if case["short"]:
+            if not refused:
+                return dict(ok=False, sig="C17/forcefile/truncated-accepted/%s" % calc, nontrivial=True, msg="%s %s: an output holding forces of %d atoms was accepted for a %d-atom supercell" % (tagc, route, n, nexp))
+            continue
+        if refused:
+            return dict(ok=False, sig="C17/forcefile/refused/%s" % calc, nontrivial=nontriv, msg="%s %s: a well-formed output was refused (%r) %s" % (tagc, route, r, buf.getvalue()[-150:]))
+        got = np.asarray(r[0], float)
+        if got.shape != want.shape:
+            return dict(ok=False, sig="C17/forcefile/shape/%s" % calc, nontrivial=nontriv, msg="%s %s: shape %s" % (tagc, route, got.shape))
+        d = np.abs(got - want).max()
+        if d > tol:
+            i = int(np.abs(got - want).max(axis=1).argmax())
+            # is it a permutation of the right rows?
+            perm = all(np.abs(want - row).max(axis=1).min() <= tol for row in got)
+            return dict(ok=False, sig="C17/forcefile/%s/%s" % ("forces-mispaired" if perm else "forces-wrong", calc), nontrivial=nontriv, resid=float(d),
+                        msg="%s %s: atom %d gets %s, the file says %s (x %g)" % (tagc, route, i + 1, got[i].tolist(), blocks[-1][i].tolist(), FF.EXPECT[calc]))
+    return dict(ok=True, nontrivial=nontriv, transitions=2, outcome="ok:forcefile:" + ("refused-truncated" if case["short"] else calc))
+
+
 def run_group(cases, seed):
     out = []
     for c in cases:
         k = c["kind"]
+        if k == "forcefile":
+            out.append(run_forcefile(c, seed))
+            continue
         if k == "units":
             out.append(run_units(c))
         elif k == "fcconv":
